@@ -37,7 +37,8 @@ static Run run_once(const std::string &script, int fault_k, int fault_kind) {
 	std::vector<std::pair<unsigned, std::string>> reqs;   // peer, body
 	{ size_t p = 0; while (p < script.size()) { size_t e = script.find('\n', p); if (e == std::string::npos) e = script.size(); std::string ln = script.substr(p, e - p); p = e + 1;
 		if (ln.compare(0, 7, "SUBMIT ") == 0) { unsigned peer; size_t ch, n; sscanf(ln.c_str() + 7, "%u %zu %zu", &peer, &ch, &n); reqs.push_back({peer, script.substr(p, n)}); p += n + 1; } } }
-	State S; std::map<unsigned, std::vector<std::set<std::string>>> acceptable; std::set<unsigned> users = {1000, 1001, 1002};
+	State S; std::map<unsigned, std::vector<std::set<std::string>>> acceptable; std::set<unsigned> users = {0};   // root queues tasks of his own, too; the others are named by the script's USERS line
+	{ size_t up = script.find("USERS "); if (up != std::string::npos) { size_t ue = script.find('\n', up); std::stringstream us(script.substr(up + 6, ue - up - 6)); unsigned u; while (us >> u) users.insert(u); } }
 	for (unsigned u : users) acceptable[u] = {std::set<std::string>()};
 	auto of = [&](unsigned u) { std::set<std::string> s; for (auto &kv : S) if (kv.second == u) s.insert(kv.first); return s; };
 	size_t ri = 0; const std::pair<unsigned, std::string> *cur = nullptr;
@@ -74,7 +75,8 @@ static Run run_once(const std::string &script, int fault_k, int fault_kind) {
 		if (!why.empty()) return done(Verdict::fail("queue file " + kv.first + " (" + std::to_string(t.size()) + " bytes) is torn: " + why + (R.crashed ? " after a crash" : R.faulted ? " after a failed system call" : "")));
 	}
 	// ---- restart: a fresh process reloads the spool
-	Trace t2 = run_session(spool, "USERS 1000 1001 1002\nRELOAD\nDUMP\n", 30.0);
+	std::string ul = "USERS"; for (unsigned u : users) if (u) ul += " " + std::to_string(u);
+	Trace t2 = run_session(spool, ul + "\nRELOAD\nDUMP\n", 30.0);
 	if (g_trace) fprintf(stderr, "--- reload\n%s\n[%s]\n", t2.raw.c_str(), t2.sbx.describe().c_str());
 	if (!t2.sbx.ok()) return done(Verdict::fail("restart on the spool left behind: " + t2.sbx.describe()));
 	PerUser got; bool dumped = false;
@@ -113,18 +115,18 @@ void prop_gen(Ctx &c) {
 	std::string params = "seed=" + std::to_string(c.seed) + " max_success=" + std::to_string(c.cases) + " max_size=" + std::to_string(c.size) + " max_discard_ratio=20";
 	setenv("RC_PARAMS", params.c_str(), 1);
 	using rgen::R;
-	auto genOp = rc::gen::tuple(R(0, 100), R(0, 2), R(0, 7), R(0, 3), R(1, 3));
+	auto genOp = rc::gen::tuple(R(0, 100), R(0, 3), R(0, 8), R(0, 4), R(1, 4));
 	rc::check("C06", [&]() {
 		if (c.shrink_exhausted()) return;
 		auto ops = *rc::gen::container<std::vector<std::tuple<int, int, int, int, int>>>((size_t)maxops, genOp);
 		size_t nops = 3 + (size_t)*R(0, maxops - 3); bool final_shut = *R(0, 2) == 0; bool many_users_dirty = *R(0, 5) == 0;
-		std::string script = "USERS 1000 1001 1002\n"; int ver = 0;
+		std::string script = "USERS 1000 1001 1002"; if (many_users_dirty) for (unsigned u = 1003; u < 1023; u++) script += " " + std::to_string(u); script += "\n"; int ver = 0;
 		for (size_t i = 0; i < nops && i < ops.size(); i++) {
-			auto &o = ops[i]; int sel = std::get<0>(o); unsigned peer = 1000 + (unsigned)std::get<1>(o);
+			auto &o = ops[i]; int sel = std::get<0>(o); unsigned peer = std::get<1>(o) == 2 && std::get<2>(o) < 3 ? 0 : 1000 + (unsigned)std::get<1>(o);
 			// every user has its own UIDs (cross-user attempts are C11's subject)
 			auto uid = [&](int k) { return "u" + std::to_string(peer) + "-job" + std::to_string((std::get<2>(o) + k) % 8); };
 			if (sel < 50) { std::string b = "BEGIN:VCALENDAR\nVERSION:2.0\n"; int n = sel < 40 ? 1 : std::get<4>(o); for (int k = 0; k < n; k++) b += ev_text(uid(k), ++ver, std::get<3>(o)); b += "END:VCALENDAR\n"; script += submit_op(peer, b);
-				if (many_users_dirty) for (int r = 0; r < 6; r++) script += submit_op(peer, "BEGIN:VCALENDAR\nVERSION:2.0\n" + ev_text(uid(0), ++ver, 0) + "END:VCALENDAR\n"); }   // more than 16 dirty marks: the dump-everybody path
+				if (many_users_dirty && i % 4 == 0) for (unsigned u = 1003; u < 1003 + 17 + (unsigned)i % 4; u++) script += submit_op(u, "BEGIN:VCALENDAR\nVERSION:2.0\n" + ev_text("u" + std::to_string(u) + "-job" + std::to_string(i % 3), ++ver, 0) + "END:VCALENDAR\n"); }   // more than 16 users with changes since the last checkpoint: the dump-everybody path
 			else if (sel < 70) { script += submit_op(peer, "BEGIN:VCALENDAR\nVERSION:2.0\nMETHOD:CANCEL\n" + ev_text(uid(0), 0, 0) + "END:VCALENDAR\n"); }
 			else if (sel < 88) script += "CHK\n";
 			else script += submit_op(peer, "GET /queue HTTP/1.1\r\n\r\n");
